@@ -366,9 +366,30 @@ def closed_market_results(ctx, rep, R):
                      (isinstance(lp.iter, ast.Call) and call_name(lp.iter) == "get" and recv_text(lp.iter) == index
                       and expanded(f, lp.iter.args[0]) == own))]
     nested = [lp for lp in rl if ol and lp in walk_nodes(ol[0].body, ast.For)]
+    # second accepted alternative: the final book indexed by the full key with ONE runner per key (a later runner
+    # of the same key replaces the earlier one - the nested scan also ends on the last match) and each order
+    # looking up its own key once: `rv = index.get(own)` with everything below guarded by `rv is not None`
+    single = None
+    for st in walk_nodes(f.node.body, ast.Assign):
+        v = st.value
+        if isinstance(v, ast.DictComp) and len(v.generators) == 1 and not v.generators[0].ifs \
+                and utext(v.generators[0].iter) == "market_book.runners" and not (ol and st in list(ast.walk(ol[0]))):
+            tv = utext(v.generators[0].target)
+            if utext(v.key) == "(%s.selection_id, %s.handicap)" % (tv, tv) and utext(v.value) == tv:
+                idx1 = utext(st.targets[0])
+                for st2 in (walk_nodes(ol[0].body, ast.Assign) if ol else []):
+                    v2 = st2.value
+                    if isinstance(v2, ast.Call) and call_name(v2) == "get" and recv_text(v2) == idx1 and len(v2.args) == 1 \
+                            and expanded(f, v2.args[0]) == own and isinstance(st2.targets[0], ast.Name):
+                        single = (idx1, st2.targets[0].id)
+    if single and (nested or inner_idx):
+        single = None
     good = len(ol) == 1 and not loop_body_exits_early(ol[0]) and (
         (len(nested) == 1 and not loop_body_exits_early(nested[0]) and not inner_idx) or
-        (len(inner_idx) == 1 and not loop_body_exits_early(inner_idx[0]) and not nested))
+        (len(inner_idx) == 1 and not loop_body_exits_early(inner_idx[0]) and not nested) or
+        (single is not None and len([x for st in walk_nodes(f.node.body, (ast.Assign, ast.AugAssign, ast.AnnAssign, ast.For))
+                                     for t in (st.targets if isinstance(st, ast.Assign) else [st.target])
+                                     for x in ast.walk(t) if isinstance(x, ast.Name) and x.id == single[1]]) == 1))
     rep.check(good, R, key(f, None, "every order of the blotter is matched against every runner of the final book"), f)
     want = {"order.runner_status": "runner.status", "order.market_type": "market_book.market_definition.market_type",
             "order.each_way_divisor": "market_book.market_definition.each_way_divisor"}
@@ -377,21 +398,25 @@ def closed_market_results(ctx, rep, R):
     def own_runner_only(gs):
         """the statement runs for the order's own runner and for nothing else"""
         gs = [g for g in gs if g != ("self._orders", True)]
+        if single:
+            return gs == [("%s is None" % single[1], False)]
         if inner_idx:
             return all(t in ("%s in %s" % (own, index), "%s in %s" % (own.strip("()"), index)) and pol for t, pol in
                        [(expanded(f, ast.parse(t_, mode="eval").body), p_) for t_, p_ in gs])
         return gs == [sel]
     for tgt, val in want.items():
         ns = [n for n in cfg.live_nodes() if n.kind == "stmt" and isinstance(n.ast, ast.Assign) and utext(n.ast.targets[0]) == tgt]
-        good = len(ns) == 1 and utext(ns[0].ast.value) == (val if not (inner_idx and tgt == "order.runner_status") else
-                                                           "%s.status" % utext(inner_idx[0].target)) and \
+        rname = single[1] if single else (utext(inner_idx[0].target) if inner_idx else None)
+        good = len(ns) == 1 and utext(ns[0].ast.value) == (val if not (rname and tgt == "order.runner_status") else
+                                                           "%s.status" % rname) and \
             own_runner_only([(utext(g.exprs[0]), pol) for g, pol in cfg.guards(ns[0].id)])
         rep.check(good, R, key(f, None, "%s taken from the order's own runner (selection and handicap), unconditionally" % tgt), f)
     dh = {}
     for n in cfg.live_nodes():
         if n.kind == "stmt" and isinstance(n.ast, ast.Assign) and utext(n.ast.targets[0]) == "order.number_of_dead_heat_winners":
             gs = tuple(sorted((utext(g.exprs[0]), pol) for g, pol in cfg.guards(n.id) if utext(g.exprs[0]) != sel[0]
-                              and utext(g.exprs[0]) != "self._orders" and not (index and utext(g.exprs[0]).endswith(" in %s" % index))))
+                              and utext(g.exprs[0]) != "self._orders" and not (index and utext(g.exprs[0]).endswith(" in %s" % index))
+                              and not (single and utext(g.exprs[0]) == "%s is None" % single[1])))
             dh[gs] = utext(n.ast.value)
     want_dh = {(("market_book.number_of_winners == 0", True),): "1",
                tuple(sorted([("market_book.number_of_winners == 0", False), (ct("number_of_winners > market_book.number_of_winners"), True)])): "number_of_winners"}
